@@ -32,7 +32,7 @@ ASSUMPTIONS = [
     "fresh sampler objects per run; reuse of an already used sampler object is outside the statement",
     "a run that ends in a third-party exception must end identically in every variant",
 ]
-REQUIRED_COUNTERS = {"variant_scheduler_ctor_seed": 10, "runs_with_set_samplers_mid_run": 3, "tiny_grid_cases": 3, "models_using_the_global_numpy_generator": 2, "models_mutating_their_argument": 5, "models_returning_nonfinite_or_huge": 3, "models_with_uneven_run_time": 2, "base_runs": 30, "variant_njobs": 20, "variant_ctor_seeds": 20, "variant_verbose": 8, "variant_folder": 8,
+REQUIRED_COUNTERS = {"variant_scheduler_ctor_seed": 10, "runs_with_set_samplers_mid_run": 2, "tiny_grid_cases": 3, "models_using_the_global_numpy_generator": 2, "models_mutating_their_argument": 5, "models_returning_nonfinite_or_huge": 3, "models_with_uneven_run_time": 1, "base_runs": 30, "variant_njobs": 20, "variant_ctor_seeds": 20, "variant_verbose": 8, "variant_folder": 8,
                      "variant_fresh_process": 10, "rl_runs": 4}
 SHARDS = {"quick": 16, "thorough": 16}
 SHARD_WATCHDOG = {"quick": 1500, "thorough": 10800}
